@@ -38,7 +38,7 @@ theorem rtAbsD (pfx name : String) (ty : TypeId) (sub : List Sel) (H : ∀ x ∈
   obtain ⟨hok1, hspP, _⟩ := absOkS_parts hok
   have hsp := spreadsA_abs hty hok
   obtain ⟨rt, kvs, rfl, hnd, hconf, htag, hmem, happ⟩ := abs_conf_factsD hty hok1 hc
-  obtain ⟨htn, hrk, _, _, _, _, _, hexcl⟩ := absOk_parts hok1
+  obtain ⟨htn, hrk, _, _, _, _, _, hexcl⟩ := absOk2_parts hok1
   have hemp := isEmpty_fieldsB c pfx ty sub ht
   have htagName : tagName kvs = rtName c.s rt := by simp [tagName, htag]
   unfold AbsEnv at hs
@@ -105,7 +105,7 @@ theorem rtAbsD (pfx name : String) (ty : TypeId) (sub : List Sel) (H : ∀ x ∈
       have hokB : fragOkB c.s c.q c.o ty gid = true ∧ ∀ k ∈ deepKeys c.s fr.sels, k ∉ fieldKeys c.s sub := by
         rcases hspP gid hm with ⟨vt, f', hvt, _, hf', hon', _⟩ | ⟨f', hokB, hf', _, hkeys⟩
         · rw [hfr] at hf'; cases hf'
-          obtain ⟨_, _, hobj, _⟩ := absOk_parts hok1
+          obtain ⟨_, _, hobj, _⟩ := absOk2_parts hok1
           obtain ⟨i, rfl, _⟩ := hobj vt hvt
           exact absurd (hon'.symm.trans hon) (obj_ne_abs hty i)
         · rw [hfr] at hf'; cases hf'
@@ -630,7 +630,7 @@ theorem canonAbs_noB (ty : TypeId) (sub : List Sel) (hty : absHyp s ty) (hok : a
         obtain ⟨vt, f', hvt, _, hf', hon, _⟩ := spread_onA hty hok hnb g hg
         rw [hf] at hf'; cases hf'
         obtain ⟨hok1, _, _⟩ := absOkS_parts hok
-        obtain ⟨_, _, hobj, _⟩ := absOk_parts hok1
+        obtain ⟨_, _, hobj, _⟩ := absOk2_parts hok1
         obtain ⟨i, rfl, _⟩ := hobj vt hvt
         exact ⟨i, hon⟩)]
   | null => rfl
